@@ -23,3 +23,22 @@ print('static int y_right_assoc(unsigned int id){')
 for n, a in sorted(assoc.items()):
     if a == 'right': print('#ifdef TokenID_%s\n  if (id == TokenID_%s) return 1;\n#endif' % (n, n))
 print('  return 0;\n}')
+
+# ---- second oracle, independent of RSToken.cpp: the literal rules of the ASCII lexer ("text" { return TokenID::NAME; })
+lex = open(repo + '/ccl/rslang/src/AsciiLexerImpl.l').read()
+rules = re.findall(r'^"((?:[^"\\]|\\.)*)"\s*\{\s*return\s+TokenID::([A-Z_0-9]+)\s*;\s*\}', lex, re.M)
+if len(rules) < 30 or not any(n == 'LESSER' for _, n in rules):
+    sys.stderr.write('pregen C05: literal rules not found in AsciiLexerImpl.l\n'); sys.exit(2)
+print('/* generated from AsciiLexerImpl.l: %d literal rules */' % len(rules))
+print('#define LEX_N %d' % len(rules))
+print('static unsigned int lex_id(int k){')
+for k, (t, n) in enumerate(rules):
+    print('#ifdef TokenID_%s\n  if (k == %d) return TokenID_%s;\n#endif' % (n, k, n))
+print('  return 0xffffffffu;\n}')
+print('static const char* lex_text(int k){')
+for k, (t, n) in enumerate(rules):
+    c = t.replace('\\', '\\\\').replace('"', '\\"') if False else t
+    # the rule text is a quoted RE/flex string: a backslash stands for itself before a letter; as a C literal it must be doubled
+    c = c.replace('\\', '\\\\')
+    print('  if (k == %d) return "%s";' % (k, c))
+print('  return "";\n}')
